@@ -5,7 +5,9 @@ import (
 	"flag"
 	"fmt"
 	"github.com/jimlambrt/gldap"
+	"github.com/jimlambrt/gldap/testdirectory"
 	"sync"
+	"sync/atomic"
 	"time"
 
 	"verif/harness/internal/berx"
@@ -56,6 +58,7 @@ func newDir20Sym() *dirSym {
 	m := map[string]string{"": "",
 		"u1": "cn=" + n[0] + "," + userBase, "u2": "cn=" + n[1] + "," + userBase, "n1": "cn=" + n[2] + "," + userBase, "n2": "cn=" + n[3] + "," + userBase,
 		"g1": "cn=" + n[4] + "," + groupBase, "mz": "cn=" + n[5] + "," + userBase,
+		"ub": "cn=bystander-" + n[5] + "," + userBase, "pb": "bystander-" + pw[0],
 		"pu1": "cn=" + n[0] + ",ou=people", // a proper substring of u1's DN (the directory finds entries by substring)
 		"t1":  "cn=tg " + n[4] + ",ou=tokens,dc=example,dc=org", "t2": "cn=tg2-" + n[0] + ",ou=tokens,dc=example,dc=org", "S1": "S-1-5-21-" + fmt.Sprint(1000+r.Intn(9000)), "S9": "S-1-9-9",
 		"v1": v[0], "v2": v[1], "v3": v[2], "p": pw[0], "q": pw[1],
@@ -120,7 +123,9 @@ func (d *dirClient) search(base, dn string, rev map[string]string) ([]dEntry, in
 
 func (d *dirClient) searchF(base string, f *berx.Node, rev map[string]string) ([]dEntry, int, error) {
 	d.msgid += 5
-	if err := d.c.Send(lx.Envelope(d.msgid, lx.SearchReq(base, 2, 0, 0, 0, false, f, nil), nil)); err != nil {
+	// the size limit alternates between none, exactly the number of entries a lookup by DN can match, and a large one
+	limit := []int64{0, 1, 1000}[(d.msgid/5)%3]
+	if err := d.c.Send(lx.Envelope(d.msgid, lx.SearchReq(base, 2, 0, limit, 0, false, f, nil), nil)); err != nil {
 		return nil, -1, err
 	}
 	out := []dEntry{}
@@ -156,9 +161,11 @@ func C20(args []string) error {
 	in := fs.String("in", "", "behaviours")
 	outp := fs.String("out", "", "trace")
 	par := fs.Int("par", 4, "parallel directories")
+	bgbind := fs.Bool("bgbind", false, "another client keeps binding as the bystander user while the behaviours run")
 	churn := fs.Bool("churn", false, "call the directory's getters and Set* methods (those that do not change what the model holds) while clients are served")
 	fs.Parse(args)
 	c20Churn = *churn
+	c20BgBind = *bgbind
 	var bs []dBehaviour
 	if err := hx.ReadLines(*in, func(b []byte) error {
 		var v dBehaviour
@@ -196,11 +203,16 @@ func C20(args []string) error {
 	return out.Close()
 }
 
-var c20Churn bool
+var c20Churn, c20BgBind bool
 
 func c20Worker(w, par int, bs []dBehaviour, sym *dirSym, parts [][]dEvent) error {
 	transport := w % 2 // even workers: plain; odd workers: TLS
-	d, err := hx.StartDir(transport == 0, false)
+	var dopts []testdirectory.Option
+	if c20BgBind {
+		tt := &testdirectory.Logger{Logger: hx.NullLogger()}
+		dopts = append(dopts, testdirectory.WithLogger(tt, hx.SlowLogger{Logger: hx.NullLogger()}))
+	}
+	d, err := hx.StartDir(transport == 0, false, dopts...)
 	if err != nil {
 		return err
 	}
@@ -273,7 +285,70 @@ func c20Worker(w, par int, bs []dBehaviour, sym *dirSym, parts [][]dEvent) error
 		}()
 	}
 	rev := sym.rev()
-	initUsers := []dEntry{{DN: "u1", Attrs: []dAttr{{"a1", []string{"v1"}}, {"a2", []string{"v2"}}, {"password", []string{"p"}}}}, {DN: "u2", Attrs: []dAttr{{"a1", []string{"v1"}}}}}
+	initUsers := []dEntry{{DN: "u1", Attrs: []dAttr{{"a1", []string{"v1"}}, {"a2", []string{"v2"}}, {"password", []string{"p"}}}}, {DN: "u2", Attrs: []dAttr{{"a1", []string{"v1"}}}},
+		{DN: "ub", Attrs: []dAttr{{"password", []string{"pb"}}}}}
+	// the bystander: present from every SetUsers(init) to the next SetUsers(none).  phase: -1 while a Set* call that
+	// changes that is under way, otherwise 2*epoch + (1 if present)
+	var phase, bgBad, bgN int64
+	phase = -1
+	var bgFirst atomic.Value
+	setUsers := func(init bool) {
+		old := atomic.SwapInt64(&phase, -1)
+		if init {
+			d.D.SetUsers(sym.entries(initUsers)...)
+		} else {
+			d.D.SetUsers()
+		}
+		ep := old/2 + 1
+		if old < 0 {
+			ep = atomic.AddInt64(&bgN, 0) + 1000
+		}
+		v := 2 * ep
+		if init {
+			v++
+		}
+		atomic.StoreInt64(&phase, v)
+	}
+	stopBg := make(chan struct{})
+	bgDone := make(chan struct{})
+	if c20BgBind {
+		go func() {
+			defer close(bgDone)
+			bc, err := dial()
+			if err != nil {
+				return
+			}
+			defer bc.Close()
+			for id := int64(700000); ; id += 3 {
+				select {
+				case <-stopBg:
+					return
+				default:
+				}
+				before := atomic.LoadInt64(&phase)
+				code := bindCode(bc, id, sym.c("ub"), sym.c("pb"))
+				after := atomic.LoadInt64(&phase)
+				if code < 0 {
+					return
+				}
+				if before < 0 || before != after {
+					continue // a SetUsers call overlapped this bind: either outcome is right
+				}
+				atomic.AddInt64(&bgN, 1)
+				want := 49
+				if before%2 == 1 {
+					want = 0
+				}
+				if code != want {
+					if atomic.AddInt64(&bgBad, 1) == 1 {
+						bgFirst.Store(fmt.Sprintf("bind as the bystander returned %d, expected %d", code, want))
+					}
+				}
+			}
+		}()
+	} else {
+		close(bgDone)
+	}
 	initGroups := []dEntry{{DN: "g1", Attrs: []dAttr{{"member", []string{"u1"}}}}}
 	opcode := map[string]int64{"add": 0, "delete": 1, "replace": 2}
 	turn := 0
@@ -286,7 +361,7 @@ func c20Worker(w, par int, bs []dBehaviour, sym *dirSym, parts [][]dEvent) error
 	}
 	for bi := w; bi < len(bs); bi += par {
 		evs := []dEvent{{Op: "reset", Trace: bi + 1, Attrs: []dAttr{}, Chs: []dChange{}}}
-		d.D.SetUsers(sym.entries(initUsers)...)
+		setUsers(true)
 		d.D.SetGroups(sym.entries(initGroups)...)
 		d.D.SetAllowAnonymousBind(false)
 		setTG(nil)
@@ -327,11 +402,7 @@ func c20Worker(w, par int, bs []dBehaviour, sym *dirSym, parts [][]dEvent) error
 			case "bind":
 				o.Code, err = cl.simple(lx.BindReq(3, sym.c(ev.DN), sym.c(ev.PW)), lx.AppBindResp)
 			case "setusers":
-				if ev.DN == "init" {
-					d.D.SetUsers(sym.entries(initUsers)...)
-				} else {
-					d.D.SetUsers()
-				}
+				setUsers(ev.DN == "init")
 			case "setgroups":
 				d.D.SetGroups()
 			case "setanon":
@@ -381,6 +452,22 @@ func c20Worker(w, par int, bs []dBehaviour, sym *dirSym, parts [][]dEvent) error
 			evs = append(evs, o)
 		}
 		parts[bi] = evs
+	}
+	close(stopBg)
+	<-bgDone
+	if c20BgBind {
+		// one summary line behind this worker's last behaviour
+		last := -1
+		for bi := w; bi < len(bs); bi += par {
+			last = bi
+		}
+		if last >= 0 {
+			sum := dEvent{Op: "bgbind", Attrs: []dAttr{}, Chs: []dChange{}, Code: int(atomic.LoadInt64(&bgBad)), Trace: int(atomic.LoadInt64(&bgN))}
+			if s, ok := bgFirst.Load().(string); ok {
+				sum.Err = s
+			}
+			parts[last] = append(parts[last], sum)
+		}
 	}
 	return nil
 }
